@@ -937,6 +937,14 @@ def write_evidence(tier, seed, batch, wall, workers, n_viol, klines, det_info, s
             "runs_fault_free": batch.runs - batch.faulted_runs,
             "runs_with_isolated_reference": batch.isolated_ref_runs,
             "runs_with_adversarial_id_allocator": s["runs_with_recycled_ids"],
+            "caller_environment": {
+                "runs_with_library_debug_logging_on": s["runs_with_library_debug_logging_on"],
+                "runs_with_warnings_as_errors_during_library_calls": s["env:warnings"],
+                "runs_with_numpy_fp_errors_raised_during_library_calls": s["env:fperr"],
+                "calls_that_raised_a_warning_class_or_FloatingPointError": sum(
+                    v for k, v in s.items() if k.startswith("raised:") and k.rsplit(":", 1)[1].endswith(("Warning", "FloatingPointError"))),
+                "argument_types": pick("args:"),
+            },
             "runs_that_changed_process_or_module_state": s["runs_that_changed_process_or_module_state"],
             "runs_rejudged_with_isolated_reference": s["runs_rejudged_with_isolated_reference"],
             "process_or_module_state_changed": pick("state_changed:"),
